@@ -215,8 +215,16 @@ func (v *c11Impl) begin(maxSeg int64, cap int, cacheOn bool, maxMsgs, maxBytes i
 	v.s.config.Streams.SegmentMaxBytes = maxSeg
 	v.s.config.Streams.RetentionMaxMessages = maxMsgs
 	v.s.config.Streams.RetentionMaxBytes = maxBytes
-	if err := v.s.cursors.Initialize(); err != nil {
-		v.t.Fatalf("create cursors stream: %v", err)
+	var ierr error
+	for try := 0; try < 4; try++ {
+		// (a Raft apply that times out on a loaded machine may still commit: Initialize is repeated, it accepts an existing stream)
+		if ierr = v.s.cursors.Initialize(); ierr == nil || !c15Infra(ierr.Error()) {
+			break
+		}
+		time.Sleep(300 * time.Millisecond)
+	}
+	if ierr != nil {
+		v.t.Fatalf("create cursors stream: %v", ierr)
 	}
 	v.waitCursorsLeader()
 	v.cap = cap
